@@ -243,7 +243,9 @@ class Check:
                     broken_in_props = [nm]
             err = out[-1500:]
             for n in names:
-                ok = bool(broken_in_props) and n not in broken_in_props and names.index(n) < names.index(broken_in_props[0])
+                # (the error may sit in a Definition between two theorems: everything before that line is checked)
+                before = set(re.findall(r"^(?:Theorem|Lemma|Corollary|Example)\s+(\w+)", "\n".join(text[:line]), re.M)) if (m and f == props_file) else set()
+                ok = bool(broken_in_props) and n not in broken_in_props and n in before
                 self.obligations.append((n, ok, "" if ok else f"not checked: build stopped at {where}"))
             self.broken_obligation = {"where": where, "log_tail": err}
             return False
